@@ -110,7 +110,7 @@ def gen_C01(tier, seed):
                             maxp=3, maxplen=2, maxhay=4, stride=3)
     reqs += _find_like(g, 250 if q else 2500, ["lf", "ll"], ["find", "iter"], cf)
     certs = _fixed_certs(["lf", "ll"], CORPUS_LISTS) + _certs(g, 40 if q else 400, ["lf", "ll"])
-    return {"reqs": reqs, "certs": certs, "first": True, "gen": g}
+    return {"reqs": reqs, "certs": certs, "first": True, "gen": g, "modes": "0"}
 
 
 def gen_C02(tier, seed):
@@ -126,7 +126,7 @@ def gen_C02(tier, seed):
                         maxp=2, maxplen=2, maxhay=3 if q else 5)
     reqs += _find_like(g, 250 if q else 2500, ["std"], ["find", "iter"], cf)
     certs = _fixed_certs(["std"], CORPUS_LISTS) + _certs(g, 40 if q else 400, ["std"])
-    return {"reqs": reqs, "certs": certs, "first": True, "gen": g}
+    return {"reqs": reqs, "certs": certs, "first": True, "gen": g, "modes": "0"}
 
 
 def gen_C03(tier, seed):
@@ -143,7 +143,7 @@ def gen_C03(tier, seed):
                         maxp=2, maxplen=2, maxhay=3 if q else 4)
     reqs += _find_like(g, 250 if q else 2500, ["std"], ["ovl", "ovliter"], cf)
     certs = _fixed_certs(["std"], CORPUS_LISTS) + _certs(g, 40 if q else 400, ["std"])
-    return {"reqs": reqs, "certs": certs, "first": False, "gen": g}
+    return {"reqs": reqs, "certs": certs, "first": False, "gen": g, "modes": "0"}
 
 
 def gen_C04(tier, seed):
@@ -190,7 +190,7 @@ def gen_C09(tier, seed):
                          cfgl=["nc.d.1.0.b", "c.0.0.0.b", "dfa.d.1.0.b", "dfa.d.0.0.a"])
     certs += _certs(g, 30 if q else 300, ["std", "lf", "ll"],
                     cfgl=["nc.d.1.0.b", "c.d.1.0.b", "c.0.0.0.b", "dfa.d.1.0.b", "dfa.d.0.0.a"])
-    return {"reqs": reqs, "certs": certs, "first": True, "gen": g}
+    return {"reqs": reqs, "certs": certs, "first": "bykind", "gen": g, "modes": "1"}
 
 
 def gen_C11(tier, seed):
@@ -397,6 +397,152 @@ def gen_C12(tier, seed):
     return {"reqs": reqs, "certs": [], "gen": g}
 
 
+def _shift(resp, d):
+    """shift every pid:start:end in a response by d"""
+    import re
+    return re.sub(r"(\d+):(\d+):(\d+)", lambda m: "%s:%d:%d" % (m.group(1), int(m.group(2)) + d, int(m.group(3)) + d), resp)
+
+
+def pre_pats(g):
+    """pattern lists that activate each prefilter variant (DESIGN 4.3)"""
+    k = g.rng.choice(["memmem", "start1", "start2", "start3", "rare", "rare", "packed", "packed", "none_many", "hi_start"])
+    g.note("pre:" + k)
+    alpha = b"abcdefgh"
+    if k == "memmem":
+        return [g.word(alpha, 1, 6)]
+    if k.startswith("start"):
+        n = int(k[-1])
+        firsts = g.rng.sample(list(b"abcdxyz"), n)
+        return [bytes([g.rng.choice(firsts)]) + g.word(alpha, 0, 4) for _ in range(g.rng.randint(n, n + 3))]
+    if k == "rare":
+        rare = g.rng.choice([b"z", b"Q", b"~", b"\x00"])
+        out = []
+        for _ in range(g.rng.randint(4, 8)):
+            w = bytearray(g.word(b"etaoinshr", 2, 6))
+            w.insert(g.rng.randint(0, len(w)), rare[0])
+            out.append(bytes(w))
+        return out
+    if k == "packed":
+        return [g.word(alpha, 2, 6) for _ in range(g.rng.randint(3, 16))]
+    if k == "hi_start":
+        return [bytes([g.rng.choice([0x80, 0xC3, 0xFF])]) + g.word(alpha, 1, 3) for _ in range(g.rng.randint(1, 3))]
+    return [g.word(alpha, 1, 5) for _ in range(g.rng.randint(17, 40))]
+
+
+def pre_hay(g, pats, fold=False):
+    """haystacks with candidate bytes at every offset relative to true matches, long enough for vector code"""
+    n = g.rng.choice([0, 3, 15, 16, 17, 31, 32, 33, 48, 64, 70, 130])
+    alpha, foreign = g.alphabet(pats, fold)
+    filler = bytes([foreign]) if g.rng.random() < 0.6 else alpha[:1]
+    out = bytearray(filler * n)
+    for _ in range(g.rng.randint(0, 4)):
+        p = g.rng.choice(pats)
+        if g.rng.random() < 0.3 and len(p) > 1:
+            p = p[: g.rng.randint(1, len(p) - 1)]      # decoy: a proper prefix
+        if len(out) >= len(p) and p:
+            pos = g.rng.randint(0, len(out) - len(p))
+            out[pos:pos + len(p)] = p
+    if fold:
+        out = bytearray((b ^ 0x20) if (65 <= b <= 90 or 97 <= b <= 122) and g.rng.random() < 0.5 else b for b in out)
+    return bytes(out)
+
+
+def gen_C05(tier, seed):
+    """prefilter on (pf=1) against the model, which has no prefilter: transparency; plus the same request with pf=0"""
+    g = Gen(seed)
+    q = tier == "quick"
+    cf = ["nc.d.1.1.b", "nc.d.1.0.b", "c.d.1.1.b", "dfa.d.1.1.u", "dfa.d.1.1.b", "dfa.d.1.0.u", "tnc.d.1.1.u",
+          "tc.d.1.1.b", "tdfa.d.1.1.u", "auto.d.1.1.u", "auto.d.1.1.b", "auto.d.1.0.u"]
+    reqs = []
+    for _ in range(300 if q else 4000):
+        pats = pre_pats(g)
+        mk = g.rng.choice(["std", "lf", "ll", "lf", "ll"])
+        fold = g.rng.random() < 0.25
+        for _ in range(2):
+            hay = pre_hay(g, pats, fold)
+            s, e = g.span(len(hay))
+            op = g.rng.choice(["find", "iter", "find", "iter", "ovl", "ovliter"] if mk == "std" else ["find", "iter"])
+            kv = {"mk": mk, "pats": hxlist(pats), "hay": hx(hay), "s": s, "e": e}
+            if fold:
+                kv["fold"] = 1
+            if op == "ovl":
+                kv["n"] = g.rng.randint(1, 12)
+            if op == "find" and g.rng.random() < 0.2:
+                kv["earliest"] = 1
+            kv["cfgs"] = cfgs(cf)
+            reqs.append(fmt_req(op, kv))
+    return {"reqs": reqs, "certs": [], "gen": g}
+
+
+def gen_C10(tier, seed):
+    """triples: the span request, the sub-slice request, and the span request with every byte outside the
+    span replaced by bytes from the pattern alphabet"""
+    g = Gen(seed)
+    q = tier == "quick"
+    cf = ["nc.d.1.0.b", "c.0.0.0.b", "dfa.d.1.0.b", "nc.d.1.1.b", "dfa.d.1.1.b", "tc.d.1.1.b", "auto.d.1.1.b", "tdfa.d.1.0.b"]
+    reqs, triples = [], []
+    for _ in range(250 if q else 3000):
+        if g.rng.random() < 0.4:
+            pats = pre_pats(g)
+            hay = pre_hay(g, pats)
+        else:
+            pats = g.pats()
+            hay = g.hay(pats, 12)
+        mk = g.rng.choice(["std", "lf", "ll"])
+        n = len(hay)
+        s = g.rng.randint(0, n); e = g.rng.randint(s, n)
+        anch = 1 if g.rng.random() < 0.3 else 0
+        op = g.rng.choice(["find", "iter"] + (["ovl"] if mk == "std" else []))
+        alpha, foreign = g.alphabet(pats)
+        pool = alpha or b"x"
+        hay2 = bytes(g.rng.choice(pool) for _ in range(g.rng.randint(0, 3))) + hay[s:e]
+        # different bytes (and possibly a different length) outside the span
+        left = bytes(g.rng.choice(pool) for _ in range(s))
+        right = bytes(g.rng.choice(pool) for _ in range(g.rng.randint(0, n - e + 2)))
+        hay3 = left + hay[s:e] + right
+        base = {"mk": mk, "pats": hxlist(pats)}
+        if anch:
+            base["anch"] = 1
+        if op == "ovl":
+            base["n"] = 2 * (e - s) + 4
+        def mkreq(h, a, b):
+            kv = dict(base); kv.update({"hay": hx(h), "s": a, "e": b, "cfgs": cfgs(cf)})
+            return fmt_req(op, kv)
+        i0 = len(reqs)
+        reqs += [mkreq(hay, s, e), mkreq(hay[s:e], 0, e - s), mkreq(hay3, s, e)]
+        triples.append((i0, s))
+    # start = end + 1
+    for _ in range(20):
+        pats = g.pats(); hay = g.hay(pats, 6)
+        e = g.rng.randint(0, len(hay))
+        for op in ("find", "iter", "ovl"):
+            kv = {"mk": "std", "pats": hxlist(pats), "hay": hx(hay), "s": e + 1, "e": e, "cfgs": cfgs(cf)}
+            if op == "ovl":
+                kv["n"] = 3
+            reqs.append(fmt_req(op, kv))
+
+    def post(run, reqs_all, impl, model):
+        """impl vs impl: span result = shifted slice result = result with other bytes outside the span"""
+        off = len(reqs_all) - len(reqs)
+        bad = []
+        for i0, s in triples:
+            for c in cf:
+                a = impl.get((off + i0, c)); b = impl.get((off + i0 + 1, c)); d = impl.get((off + i0 + 2, c))
+                if a is None or b is None or d is None:
+                    continue
+                if a != _shift(b, s):
+                    bad.append({"req": reqs_all[off + i0], "cfg": c, "impl": a,
+                                "model": model.get((off + i0, c)), "line": off + i0,
+                                "note": "span result differs from shifted sub-slice result " + _shift(b, s)})
+                elif a != d:
+                    bad.append({"req": reqs_all[off + i0 + 2], "cfg": c, "impl": d,
+                                "model": model.get((off + i0 + 2, c)), "line": off + i0 + 2,
+                                "note": "bytes outside the span changed the result"})
+        run.cov["span_triples_compared"] = len(triples) * len(cf)
+        return [b for b in bad if b["impl"] == b["model"]]  # the rest is already reported by the model diff
+    return {"reqs": reqs, "certs": [], "gen": g, "post": post}
+
+
 TOP_APIS = ["is_match", "find", "find_overlapping", "find_iter", "find_overlapping_iter", "replace_all",
             "replace_all_bytes", "replace_all_with", "replace_all_with_bytes", "stream_find_iter",
             "try_find", "try_find_overlapping", "try_find_iter", "try_find_overlapping_iter", "try_replace_all",
@@ -438,5 +584,5 @@ def gen_C13(tier, seed):
     return {"reqs": reqs, "certs": [], "gen": g, "exhaustive": True}
 
 
-GENS = {"C13": gen_C13, "C07": gen_C07, "C08": gen_C08, "C18": gen_C18, "C12": gen_C12, "C01": gen_C01, "C02": gen_C02, "C03": gen_C03, "C04": gen_C04, "C09": gen_C09,
+GENS = {"C13": gen_C13, "C05": gen_C05, "C10": gen_C10, "C07": gen_C07, "C08": gen_C08, "C18": gen_C18, "C12": gen_C12, "C01": gen_C01, "C02": gen_C02, "C03": gen_C03, "C04": gen_C04, "C09": gen_C09,
         "C11": gen_C11, "C14": gen_C14, "C16": gen_C16}
